@@ -163,6 +163,8 @@ class Runner:
         env["VERIF_SEED"] = str(self.seed)
         env.setdefault("ASAN_OPTIONS", "handle_segv=0:detect_leaks=0:abort_on_error=1:allocator_may_return_null=1")
         env.setdefault("UBSAN_OPTIONS", "halt_on_error=1:abort_on_error=1:print_stacktrace=0")
+        if getattr(self.mod, "DUMP", False):
+            env["FX_DUMP"] = "1"
         for _attempt in range(len(ks) + 2):
             t_start = time.time()
             try:
@@ -209,7 +211,7 @@ class Runner:
             return
         for ln in fh:
             ln = ln.rstrip("\n")
-            if not ln or ln[0] in "BE":
+            if not ln or ln[0] in "BE" and (len(ln) == 1 or ln[1] == " "):
                 continue
             parts = ln.split(" ", 2)
             try:
@@ -235,7 +237,10 @@ class Runner:
                 r.notes.append(parts[2] if len(parts) > 2 else "")
             elif t == "D":
                 f = ln.split(" ")
-                r.dumps.setdefault(f[2], []).append((f[3], int(f[4]), f[5] if len(f) > 5 else ""))
+                if len(f) >= 7:
+                    r.dumps.setdefault("seq", []).append((f[2], f[3], f[5], f[6]))
+            elif t == "G":
+                r.dumps["hash"] = ln.split()[2]
         for r in by_k.values():
             if r.status == "pass" and (r.fails or r.records):
                 r.status = "fail"
@@ -308,8 +313,14 @@ class Runner:
             self.cfg_stats[cfg.tag] = {"cases": len(cases), "tus": 0, "compile_rejects": 0, "crashes": 0,
                                        "compile_s": 0.0, "run_s": 0.0, "runnable": runnable}
             prelude = mod.prelude(self.tier, cfg) if hasattr(mod, "prelude") else ""
-            for ti, chunk in enumerate(_pack(cases, budget)):
-                jobs.append((cfg, ti, chunk, header, prelude, runnable))
+            by_header = {}
+            for c in cases:
+                by_header.setdefault(c.meta.get("header", header), []).append(c)
+            ti = 0
+            for hdr, group in by_header.items():
+                for chunk in _pack(group, budget):
+                    jobs.append((cfg, ti, chunk, hdr, prelude, runnable))
+                    ti += 1
         self.log(f"{self.prop} {self.tier}: {len(cfgs)} configurations, {len(self.results)} cases, {len(jobs)} TUs, root={self.root}")
         # interleave configurations so a deadline cuts every configuration evenly, biggest TUs first within a round
         order = sorted(range(len(jobs)), key=lambda i: (jobs[i][1], i))
@@ -421,7 +432,7 @@ def write_replay(run, r):
     prelude = run.mod.prelude(run.tier, r.cfg) if hasattr(run.mod, "prelude") else ""
     doc = {"property": run.prop, "case_id": r.case.id, "config": r.cfg.describe(), "config_tag": r.cfg.tag,
            "status": r.status, "detail": r.detail, "records": r.records, "fails": r.fails,
-           "replay_state": r.replay_state, "header": run.mod.HEADER, "prelude": prelude, "body": r.case.body,
+           "replay_state": r.replay_state, "header": r.case.meta.get("header", run.mod.HEADER), "prelude": prelude, "body": r.case.body,
            "link_flags": list(getattr(run.mod, "LINK_FLAGS", [])), "seed": run.seed,
            "how": "python3 -m fxmc replay " + path}
     with open(path, "w") as f:
@@ -434,6 +445,8 @@ def check(prop, tier, root=DEFAULT_ROOT, **kw):
     mod = run.mod
     try:
         run.execute()
+        if hasattr(mod, "post"):
+            mod.post(run)
         findings = load_findings()
         viol, known, not_judged = [], [], []
         for key, r in run.results.items():
